@@ -3568,6 +3568,21 @@ let rx_ftl_trail =
 let parser_regexes =
   rx_ws_base :: (rx_nl_linecol :: (rx_re_br :: (rx_re_sgml :: (rx_props_key :: (rx_props_comment :: (rx_props_ws :: (rx_props_escaped_end :: (rx_props_trailing_ws :: (rx_props_escape :: (rx_dtd_key :: (rx_dtd_header :: (rx_dtd_comment :: (rx_dtd_pe :: (rx_dtd_ws :: (rx_ini_comment :: (rx_ini_section :: (rx_ini_key :: (rx_ini_ws :: (rx_inc_ws :: (rx_inc_comment :: (rx_inc_key :: (rx_inc_pi :: (rx_po_key :: (rx_po_value :: (rx_po_comment :: (rx_po_listitem :: (rx_po_ws :: (rx_ftl_lead :: (rx_ftl_trail :: [])))))))))))))))))))))))))))))
 
+(** val rx_keyRE : rx **)
+
+let rx_keyRE =
+  Cat ((Chr (false, (((Npos (XI (XI (XO (XI (XO (XI XH))))))), (Npos (XI (XI
+    (XO (XI (XO (XI XH)))))))) :: (((Npos (XI (XI (XO (XI (XO (XO XH))))))),
+    (Npos (XI (XI (XO (XI (XO (XO XH)))))))) :: [])))), (Cat ((Chr (false,
+    (((Npos (XI (XO (XI (XO (XO (XI XH))))))), (Npos (XI (XO (XI (XO (XO (XI
+    XH)))))))) :: []))), (Chr (false, (((Npos (XI (XO (XO (XI (XI (XI
+    XH))))))), (Npos (XI (XO (XO (XI (XI (XI XH)))))))) :: []))))))
+
+(** val c03_regexes : rx list **)
+
+let c03_regexes =
+  rx_keyRE :: []
+
 (** val rx_printf : rx **)
 
 let rx_printf =
@@ -3648,10 +3663,171 @@ let rx_c06_escape =
 let c06_regexes =
   rx_printf :: (rx_digits_end :: (rx_plural_var :: (rx_mochibake :: (rx_c06_escape :: []))))
 
+(** val rx_c09_silencer : rx **)
+
+let rx_c09_silencer =
+  Alt ((Cat ((Chr (false, (((Npos (XO (XO (XI (XI (XI (XO XH))))))), (Npos
+    (XO (XO (XI (XI (XI (XO XH)))))))) :: []))), (Chr (true, (((Npos (XO (XI
+    (XO XH)))), (Npos (XO (XI (XO XH))))) :: []))))), (Cat ((Chr (false,
+    (((Npos (XO (XI (XO (XO (XO XH)))))), (Npos (XO (XI (XO (XO (XO
+    XH))))))) :: []))), (Chr (false, (((Npos (XO (XI (XO (XO (XO XH)))))),
+    (Npos (XO (XI (XO (XO (XO XH))))))) :: []))))))
+
+(** val rx_c09_mochibake : rx **)
+
+let rx_c09_mochibake =
+  Chr (false, (((Npos (XI (XO (XI (XI (XI (XI (XI (XI (XI (XI (XI (XI (XI (XI
+    (XI XH)))))))))))))))), (Npos (XI (XO (XI (XI (XI (XI (XI (XI (XI (XI (XI
+    (XI (XI (XI (XI XH))))))))))))))))) :: []))
+
+(** val rx_c09_dq : rx **)
+
+let rx_c09_dq =
+  Cat ((Chr (false, (((Npos (XO (XI (XO (XO (XO XH)))))), (Npos (XO (XI (XO
+    (XO (XO XH))))))) :: []))), (Chr (false, (((Npos (XO (XI (XO (XO (XO
+    XH)))))), (Npos (XO (XI (XO (XO (XO XH))))))) :: []))))
+
+(** val rx_c09_apos : rx **)
+
+let rx_c09_apos =
+  Chr (false, (((Npos (XI (XI (XI (XO (XO XH)))))), (Npos (XI (XI (XI (XO (XO
+    XH))))))) :: []))
+
+(** val rx_c09_params : rx **)
+
+let rx_c09_params =
+  Cat ((Chr (false, (((Npos (XI (XO (XI (XO (XO XH)))))), (Npos (XI (XO (XI
+    (XO (XO XH))))))) :: []))), (Cat ((Alt ((Grp ((S O), (Cat ((Chr (false,
+    (((Npos (XI (XO (XO (XO (XI XH)))))), (Npos (XI (XO (XO (XI (XI
+    XH))))))) :: []))), (Chr (false, (((Npos (XO (XO (XI (XO (XO XH)))))),
+    (Npos (XO (XO (XI (XO (XO XH))))))) :: []))))))), Eps)), (Grp ((S (S O)),
+    (Alt ((Cat ((Alt ((Cat ((Chr (false, (((Npos (XO (XI (XI (XI (XO
+    XH)))))), (Npos (XO (XI (XI (XI (XO XH))))))) :: []))), (Rep (true, (S
+    O), None, (Chr (false, (((Npos (XO (XO (XO (XO (XI XH)))))), (Npos (XI
+    (XO (XO (XI (XI XH))))))) :: []))))))), Eps)), (Chr (false, (((Npos (XO
+    (XI (XI (XO (XO (XI XH))))))), (Npos (XO (XI (XI (XO (XO (XI
+    XH)))))))) :: []))))), (Chr (false, (((Npos (XO (XO (XI (XO (XO (XI
+    XH))))))), (Npos (XO (XO (XI (XO (XO (XI XH)))))))) :: (((Npos (XI (XI
+    (XO (XO (XI (XI XH))))))), (Npos (XI (XI (XO (XO (XI (XI
+    XH)))))))) :: (((Npos (XI (XI (XO (XO (XI (XO XH))))))), (Npos (XI (XI
+    (XO (XO (XI (XO XH)))))))) :: []))))))))))))
+
+(** val c09_regexes : rx list **)
+
+let c09_regexes =
+  rx_c09_silencer :: (rx_c09_mochibake :: (rx_c09_dq :: (rx_c09_apos :: (rx_c09_params :: []))))
+
+(** val rx_path_special : rx **)
+
+let rx_path_special =
+  Alt ((Grp ((S O), (Cat ((Look (false, true, (Chr (true, (((Npos (XI (XI (XI
+    (XI (XO XH)))))), (Npos (XI (XI (XI (XI (XO XH))))))) :: (((Npos (XI (XO
+    (XI (XI (XI (XI XH))))))), (Npos (XI (XO (XI (XI (XI (XI
+    XH)))))))) :: [])))))), (Cat ((Chr (false, (((Npos (XO (XI (XO (XI (XO
+    XH)))))), (Npos (XO (XI (XO (XI (XO XH))))))) :: []))), (Cat ((Chr
+    (false, (((Npos (XO (XI (XO (XI (XO XH)))))), (Npos (XO (XI (XO (XI (XO
+    XH))))))) :: []))), (Grp ((S (S O)), (Alt ((Chr (false, (((Npos (XI (XI
+    (XI (XI (XO XH)))))), (Npos (XI (XI (XI (XI (XO XH))))))) :: []))), (Eol
+    false))))))))))))), (Alt ((Grp ((S (S (S O))), (Chr (false, (((Npos (XO
+    (XI (XO (XI (XO XH)))))), (Npos (XO (XI (XO (XI (XO XH))))))) :: []))))),
+    (Grp ((S (S (S (S O)))), (Cat ((Chr (false, (((Npos (XI (XI (XO (XI (XI
+    (XI XH))))))), (Npos (XI (XI (XO (XI (XI (XI XH)))))))) :: []))), (Cat
+    ((Rep (true, O, None, (Chr (false, (((Npos (XO (XO (XO (XO (XO XH)))))),
+    (Npos (XO (XO (XO (XO (XO XH))))))) :: []))))), (Cat ((Grp ((S (S (S (S
+    (S O))))), (Rep (true, (S O), None, (Chr (false, word_ranges)))))), (Cat
+    ((Rep (true, O, None, (Chr (false, (((Npos (XO (XO (XO (XO (XO XH)))))),
+    (Npos (XO (XO (XO (XO (XO XH))))))) :: []))))), (Chr (false, (((Npos (XI
+    (XO (XI (XI (XI (XI XH))))))), (Npos (XI (XO (XI (XI (XI (XI
+    XH)))))))) :: []))))))))))))))))
+
+(** val rx_android_region : rx **)
+
+let rx_android_region =
+  Cat ((Chr (false, (((Npos (XI (XO (XI (XI (XO XH)))))), (Npos (XI (XO (XI
+    (XI (XO XH))))))) :: []))), (Cat ((Chr (false, (((Npos (XO (XI (XO (XO
+    (XI (XI XH))))))), (Npos (XO (XI (XO (XO (XI (XI XH)))))))) :: []))),
+    (Grp ((S O), (Rep (true, (S (S O)), (Some (S (S O))), (Chr (false,
+    (((Npos (XI (XO (XO (XO (XO (XO XH))))))), (Npos (XO (XI (XO (XI (XI (XO
+    XH)))))))) :: []))))))))))
+
+(** val rx_android_legacy_in : rx **)
+
+let rx_android_legacy_in =
+  Cat ((Bol false), (Cat ((Grp ((S O), (Alt ((Cat ((Chr (false, (((Npos (XI
+    (XO (XO (XI (XO (XI XH))))))), (Npos (XI (XO (XO (XI (XO (XI
+    XH)))))))) :: []))), (Chr (false, (((Npos (XI (XI (XI (XO (XI (XI
+    XH))))))), (Npos (XI (XI (XI (XO (XI (XI XH)))))))) :: []))))), (Alt
+    ((Cat ((Chr (false, (((Npos (XI (XO (XO (XI (XO (XI XH))))))), (Npos (XI
+    (XO (XO (XI (XO (XI XH)))))))) :: []))), (Chr (false, (((Npos (XO (XI (XI
+    (XI (XO (XI XH))))))), (Npos (XO (XI (XI (XI (XO (XI
+    XH)))))))) :: []))))), (Cat ((Chr (false, (((Npos (XO (XI (XO (XI (XO (XI
+    XH))))))), (Npos (XO (XI (XO (XI (XO (XI XH)))))))) :: []))), (Chr
+    (false, (((Npos (XI (XO (XO (XI (XO (XI XH))))))), (Npos (XI (XO (XO (XI
+    (XO (XI XH)))))))) :: []))))))))))), (Look (true, false, (Alt (EndStr,
+    (Chr (false, (((Npos (XI (XO (XI (XI (XO XH)))))), (Npos (XI (XO (XI (XI
+    (XO XH))))))) :: []))))))))))
+
+(** val rx_android_legacy_out : rx **)
+
+let rx_android_legacy_out =
+  Cat ((Bol false), (Cat ((Grp ((S O), (Alt ((Cat ((Chr (false, (((Npos (XO
+    (XO (XO (XI (XO (XI XH))))))), (Npos (XO (XO (XO (XI (XO (XI
+    XH)))))))) :: []))), (Chr (false, (((Npos (XI (XO (XI (XO (XO (XI
+    XH))))))), (Npos (XI (XO (XI (XO (XO (XI XH)))))))) :: []))))), (Alt
+    ((Cat ((Chr (false, (((Npos (XI (XO (XO (XI (XO (XI XH))))))), (Npos (XI
+    (XO (XO (XI (XO (XI XH)))))))) :: []))), (Chr (false, (((Npos (XO (XO (XI
+    (XO (XO (XI XH))))))), (Npos (XO (XO (XI (XO (XO (XI
+    XH)))))))) :: []))))), (Cat ((Chr (false, (((Npos (XI (XO (XO (XI (XI (XI
+    XH))))))), (Npos (XI (XO (XO (XI (XI (XI XH)))))))) :: []))), (Chr
+    (false, (((Npos (XI (XO (XO (XI (XO (XI XH))))))), (Npos (XI (XO (XO (XI
+    (XO (XI XH)))))))) :: []))))))))))), (Look (true, false, (Alt (EndStr,
+    (Chr (false, (((Npos (XI (XO (XI (XI (XO XH)))))), (Npos (XI (XO (XI (XI
+    (XO XH))))))) :: []))))))))))
+
+(** val rx_android_lang_region : rx **)
+
+let rx_android_lang_region =
+  Cat ((Rep (true, (S (S O)), (Some (S (S (S O)))), (Chr (false, (((Npos (XI
+    (XO (XO (XO (XO (XI XH))))))), (Npos (XO (XI (XO (XI (XI (XI
+    XH)))))))) :: []))))), (Cat ((Chr (false, (((Npos (XI (XO (XI (XI (XO
+    XH)))))), (Npos (XI (XO (XI (XI (XO XH))))))) :: []))), (Rep (true, (S (S
+    O)), (Some (S (S O))), (Chr (false, (((Npos (XI (XO (XO (XO (XO (XO
+    XH))))))), (Npos (XO (XI (XO (XI (XI (XO XH)))))))) :: []))))))))
+
+(** val rx_mozpath_glob : rx **)
+
+let rx_mozpath_glob =
+  Alt ((Cat ((Grp ((S O), (Alt ((Bol false), (Chr (false, (((Npos (XI (XI (XI
+    (XI (XO XH)))))), (Npos (XI (XI (XI (XI (XO XH))))))) :: []))))))), (Cat
+    ((Chr (false, (((Npos (XO (XI (XO (XI (XO XH)))))), (Npos (XO (XI (XO (XI
+    (XO XH))))))) :: []))), (Cat ((Chr (false, (((Npos (XO (XI (XO (XI (XO
+    XH)))))), (Npos (XO (XI (XO (XI (XO XH))))))) :: []))), (Grp ((S (S O)),
+    (Alt ((Chr (false, (((Npos (XI (XI (XI (XI (XO XH)))))), (Npos (XI (XI
+    (XI (XI (XO XH))))))) :: []))), (Eol false))))))))))), (Grp ((S (S (S
+    O))), (Chr (false, (((Npos (XO (XI (XO (XI (XO XH)))))), (Npos (XO (XI
+    (XO (XI (XO XH))))))) :: []))))))
+
+(** val c11_regexes : rx list **)
+
+let c11_regexes =
+  rx_path_special :: (rx_android_region :: (rx_android_legacy_in :: (rx_android_legacy_out :: (rx_android_lang_region :: (rx_mozpath_glob :: [])))))
+
+(** val rx_c14_key_suffix : rx **)
+
+let rx_c14_key_suffix =
+  Eol false
+
+(** val c14_regexes : rx list **)
+
+let c14_regexes =
+  rx_c14_key_suffix :: []
+
 (** val all_regexes : rx list **)
 
 let all_regexes =
-  app parser_regexes c06_regexes
+  app parser_regexes
+    (app c03_regexes
+      (app c06_regexes (app c09_regexes (app c11_regexes c14_regexes))))
 
 (** val the_rx : sx -> rx **)
 
